@@ -21,13 +21,44 @@ fn case_value(v: &RV) -> J {
     json!({"kind": "canon", "value": v.show()})
 }
 
+thread_local! {
+    /// a number buffer shared by every `canonicalize_with` call of the thread: whatever an
+    /// earlier (longer or shorter) number left in it must not matter
+    static SHARED: std::cell::RefCell<ryu_js::Buffer> = std::cell::RefCell::new(ryu_js::Buffer::new());
+}
+
+/// Canonicalizes through every route (`Value::canonicalize`, `Value::canonicalize_with` with a
+/// buffer reused across calls, and for an object `Object::canonicalize` / `canonicalize_with`);
+/// the routes must agree.
 fn canon_print(v: &RV) -> Result<(String, Value), String> {
     let mut real = bridge::to_value(v);
-    explore::guard(|| {
+    let (text, value) = explore::guard(|| {
         real.canonicalize();
         (real.compact_print().to_string(), real.clone())
     })
-    .map_err(|p| format!("canonicalize panicked: {p}"))
+    .map_err(|p| format!("canonicalize panicked: {p}"))?;
+    let other = explore::guard(|| {
+        let mut routes: Vec<(&str, Value)> = Vec::new();
+        let mut a = bridge::to_value(v);
+        SHARED.with(|b| a.canonicalize_with(&mut b.borrow_mut()));
+        routes.push(("Value::canonicalize_with(shared buffer)", a));
+        if let Value::Object(o) = bridge::to_value(v) {
+            let mut o1 = o.clone();
+            o1.canonicalize();
+            routes.push(("Object::canonicalize", Value::Object(o1)));
+            let mut o2 = o;
+            SHARED.with(|b| o2.canonicalize_with(&mut b.borrow_mut()));
+            routes.push(("Object::canonicalize_with(shared buffer)", Value::Object(o2)));
+        }
+        routes
+    })
+    .map_err(|p| format!("canonicalize (another route) panicked: {p}"))?;
+    for (name, r) in other {
+        if r != value {
+            return Err(format!("{name} gives {}, Value::canonicalize gives {text}", r.compact_print()));
+        }
+    }
+    Ok((text, value))
 }
 
 /// C09 oracle on one I-JSON value.
@@ -635,11 +666,15 @@ fn c10_documents(rep: &mut Report, tier: Tier) {
 
 fn canon_doc(doc: &str) -> Result<String, String> {
     let (mut v, _) = Value::parse_str(doc).map_err(|e| format!("document {doc:?} does not parse: {e}"))?;
+    // the byte-slice route to the same document
+    let (mut w, _) = Value::parse_slice(doc.as_bytes()).map_err(|e| format!("document {doc:?} does not parse as bytes: {e}"))?;
     explore::guard(|| {
         v.canonicalize();
-        v.compact_print().to_string()
+        w.canonicalize();
+        (v.compact_print().to_string(), w.compact_print().to_string())
     })
     .map_err(|p| format!("canonicalize panicked: {p}"))
+    .and_then(|(a, b)| if a == b { Ok(a) } else { Err(format!("document {doc:?} canonicalizes to {a} when read as a string and to {b} when read as bytes")) })
 }
 
 fn replay(args: &Args, path: &std::path::Path) -> i32 {
